@@ -508,6 +508,37 @@ def p_ranges_nest(prop, c):
     return None
 
 
+def judge_big_offsets(res, runs):
+    """the synthetic input `a` x (2^32 + 5) followed by "bcdde": ranges and string behind an offset of more than 32 bits"""
+    n = (1 << 32) + 5
+    want = {"S": (0, n + 5), "T": (n, n + 2), "U": (n + 2, n + 4), "M": (n + 4, n + 5)}
+    k = 0
+    for r in runs:
+        for c in r.synthetic:
+            k += 1
+            c.fam = r.fam
+            a = c.act
+            ex = {"name": "offsets_beyond_32_bits", "site": "offsets-beyond-32-bits"}
+            if "crash" in a or not a.get("res", {}).get("ok"):
+                res.add(Violation("C09", "RangesExact", "input of 2^32 + 10 bytes (an extern rule skips the first 2^32 + 5): not parsed: %s" % (
+                    json.dumps(a.get("res", a.get("crash")))[:200]), None, ex))
+                continue
+            dbg = a["res"]["dbg"]
+            import re
+            got = {}
+            for name, field in (("S", r"\}\), position: (\d+)\.\.(\d+) \}$"), ("T", r"t: T \{ position: (\d+)\.\.(\d+) \}"),
+                                ("U", r"u: U \{ string: \"dd\", position: (\d+)\.\.(\d+) \}"), ("M", r"m: Some\(M \{ position: (\d+)\.\.(\d+) \}")):
+                m = re.search(field, dbg)
+                got[name] = (int(m.group(1)), int(m.group(2))) if m else None
+            if got != want:
+                res.add(Violation("C09", "RangesExact", "ranges behind an offset of more than 32 bits: got %s, expected %s (tree %s)" % (
+                    got, want, dbg[:300]), None, ex))
+            for key in ("rec_same", "ind_same", "again_same"):
+                if a.get(key) is False:
+                    res.add(Violation("C09", "RangesExact", "the parse of the 4 GiB input differs when repeated / traced (%s)" % key, None, ex))
+    res.coverage["inputs_beyond_32_bit_offsets"] = k
+
+
 def check_C09(tier, seed, replay):
     res, runs, cases = generic(
         "C09", ["pos", "ws", "uni", "user", "rand", "randuni"], tier, seed, replay, [p_ranges],
@@ -516,6 +547,8 @@ def check_C09(tier, seed, replay):
         "accepted input whose tree carries at least two ranges",
         lambda c: c.exp["ok"] and len(dbgparse.ranges_of(c.exp["tree"])) >= 2,
         require=("SkipWsBuiltin", "MemoHit", "LrGrow"))
+    if not replay:
+        judge_big_offsets(res, runs)
     return res
 
 
@@ -721,7 +754,7 @@ def p_tracing(prop, c):
 
 def check_C19(tier, seed, replay):
     res, runs, cases = generic(
-        "C19", ["ops", "memo", "lr", "user", "uni", "rand"], tier, seed, replay, [p_tracing],
+        "C19", ["ops", "memo", "lr", "user", "uni", "rand", "names"], tier, seed, replay, [p_tracing],
         "operator, memo (cache hits), left-recursion (re-evaluation) and user-function (failing checks, externs) "
         "families x all inputs up to the bound, each parsed plainly, with a recording ParseTracer and with the "
         "library's IndentedTracer; non-trivial = at least two rule entries",
@@ -916,6 +949,29 @@ def check_C11(tier, seed, replay):
             if k != lstart:      # the same line at its first column: where the printed line starts under the gutter
                 extra.append({"text": cps, "pos": len(txt[:lstart].encode("utf-8")), "line": before.count("\n") + 1, "col": 1,
                               "linetext": [ord(c) for c in txt[lstart:lend]], "random": True})
+    # many lines: counters of lines, bytes or characters that are narrower than they look (255 / 256 / 65535 / 65536)
+    if not replay:
+        def at(txt, k):
+            before = txt[:k]
+            lstart = before.rfind("\n") + 1
+            lend = txt.find("\n", k)
+            lend = len(txt) if lend < 0 else lend
+            return {"text": [ord(c) for c in txt], "pos": len(before.encode("utf-8")), "line": before.count("\n") + 1, "col": k - lstart + 1,
+                    "linetext": [ord(c) for c in txt[lstart:lend]], "random": True}
+        longs = []
+        for n in (254, 255, 256, 257, 511, 512, 513, 1000):
+            longs.append("\n" * n + "ab")
+            longs.append("x\n" * n + "\u00e9b")
+        for n in (255, 256, 257, 300):
+            longs.append("a" * n + "\u00e9b\ncd")            # a long line
+            longs.append("\u9053" * n + "b")
+        if tier != "quick":
+            longs += ["\n" * 65536 + "ab", "y" * 65536 + "\nab", "z\n" * 70000 + "q"]
+        for txt in longs:
+            for k in sorted({0, len(txt), len(txt) - 1, len(txt) - 2, len(txt) // 2, 256, 257, min(len(txt), 300)}):
+                if 0 <= k <= len(txt):
+                    extra.append(at(txt, k))
+                    extra.append(at(txt, txt[:k].rfind("\n") + 1))     # the same line at its first column
     d = vlib.famdir("pretty", tier)
     cases = []
     for e in exp + extra:
@@ -1059,7 +1115,7 @@ def check_C18(tier, seed, replay):
         keep.append((fmt, hl))
     hists = keep if not replay else hists
     # "+wide": the same histories with the prefixes spelled in multi-byte characters
-    modes = ["file", "dest", "dir", "file+wide"]
+    modes = ["file", "dest", "dir", "file+wide", "dirlink"]
     d = vlib.famdir("buildscript", tier)
     cf = os.path.join(d, "histories.tsv")
     lines = []
@@ -1067,7 +1123,9 @@ def check_C18(tier, seed, replay):
         for m in (modes if not replay else [json.load(open(replay)).get("mode", "file")]):
             if m == "file+wide" and "p:" not in hl:
                 continue
-            if m == "dir" and ("e:missing" in hl or "i:missing" in hl):
+            if m == "dirlink" and ("p:" in hl or hl.count("r") < 2):
+                continue      # (the symbolic-link variant: histories with two or more runs, default prefix)
+            if m in ("dir", "dirlink") and ("e:missing" in hl or "i:missing" in hl):
                 continue      # in directory mode a missing grammar file is simply not visited
             if fmt and not m.startswith("file"):
                 continue      # formatting is orthogonal to where the destination is
@@ -1367,6 +1425,25 @@ def check_C15(tier, seed, replay):
                     with open(os.path.join(base, nm + ".ebnf"), "w") as f:
                         f.write(btxt if i == pos else good)
                 dir_cases.append(("dir_%s_pos%d_%s" % (bn, pos, "nested" if nested else "flat"), dname, "error"))
+    # ... and behind a symbolic link (a directory link, a file link)
+    for bn, btxt in bads:
+        import shutil
+        dname = os.path.join(tdir, "dir_%s_symlinked_dir" % bn)
+        shutil.rmtree(dname, ignore_errors=True)
+        shutil.rmtree(dname + "_target", ignore_errors=True)
+        os.makedirs(dname)
+        os.makedirs(dname + "_target")
+        open(os.path.join(dname, "a.ebnf"), "w").write(good)
+        open(os.path.join(dname + "_target", "b.ebnf"), "w").write(btxt)
+        os.symlink(dname + "_target", os.path.join(dname, "sub"))
+        dir_cases.append(("dir_%s_symlinked_dir" % bn, dname, "error"))
+        dname = os.path.join(tdir, "dir_%s_symlinked_file" % bn)
+        shutil.rmtree(dname, ignore_errors=True)
+        os.makedirs(dname)
+        open(os.path.join(dname, "a.ebnf"), "w").write(good)
+        open(os.path.join(tdir, "dir_%s_linked_source.txt" % bn), "w").write(btxt)
+        os.symlink(os.path.join(tdir, "dir_%s_linked_source.txt" % bn), os.path.join(dname, "b.ebnf"))
+        dir_cases.append(("dir_%s_symlinked_file" % bn, dname, "error"))
     dname = os.path.join(tdir, "dir_allgood")
     os.makedirs(dname, exist_ok=True)
     for nm in ("a", "b"):
@@ -1482,7 +1559,7 @@ def check_C20(tier, seed, replay):
         raise ToolError("vacuity: TLC no longer refutes the per-thread / shared cache designs")
     # 2. the real code: concurrent parses against a sequential run
     nthreads, rounds = (8, 4) if tier == "quick" else (16, 40)
-    fams = ["memo", "lr", "ops", "ws"]
+    fams = ["memo", "lr", "ops", "ws", "uni"]
     runs, cov = machine_runs("C20", fams, tier, seed, replay)
     total = 0
     thread_cases = []
@@ -1492,7 +1569,11 @@ def check_C20(tier, seed, replay):
         name = os.path.basename(os.path.dirname(r.cdir))
         binp = os.path.join(vlib.WORK, "target", "debug", "fam_%s_%s" % (name, r.tier))
         of = os.path.join(vlib.famdir(name, r.tier), "threads.jsonl")
-        p_ = subprocess.run([binp, os.path.join(r.cdir, "cases.tsv"), of, "0", "--threads", str(nthreads), "--rounds", str(rounds)],
+        # (without the inputs of tens of kilobytes: their place is the sequential run)
+        tcases = os.path.join(vlib.famdir(name, r.tier), "cases_threads.tsv")
+        with open(tcases, "w") as f_:
+            f_.write("".join(l_ for l_ in open(os.path.join(r.cdir, "cases.tsv")) if len(l_) < 40000 and "\t@" not in l_))
+        p_ = subprocess.run([binp, tcases, of, "0", "--threads", str(nthreads), "--rounds", str(rounds)],
                             stdout=subprocess.PIPE, stderr=subprocess.PIPE, text=True, timeout=3600)
         if p_.returncode != 0:
             # a crash under concurrency that does not happen sequentially is a violation of the property
@@ -1502,7 +1583,7 @@ def check_C20(tier, seed, replay):
         lines = open(of).read().splitlines()
         summ = json.loads(lines[0])
         total += summ["parses"]
-        lines_cases = open(os.path.join(r.cdir, "cases.tsv")).read().splitlines()
+        lines_cases = open(tcases).read().splitlines()
         key_to_case = {(c.gid, tuple(c.inp)): c for c in r.cases + r.real_only}
         for m in summ["mismatches"]:
             gid, hx = lines_cases[m["case"]].split("\t")
@@ -1544,6 +1625,14 @@ def check_C20(tier, seed, replay):
     for c in cases_all:
         if not c.crashed and not c.act.get("again_same", True):
             res.add(Violation("C20", "SessionPure", "parsing the same input again gives a different result", c))
+        elif not c.crashed:
+            # every case is one parse in a long session on one thread (out of one reused buffer): its result must be
+            # the one the specification determines from grammar and input alone
+            v = props.p_conforms("C20", c) or props.p_tree("C20", c, ranges=True)
+            if v is not None:
+                v.formula = "SessionPure"
+                v.what = "a parse in a session of many gives another result than grammar and input determine: " + v.what
+                res.add(v)
     nt = sum(1 for c in cases_all if any(r_.kind == "rule" and (r_.memoize or r_.leftrec) for r_ in c.g.rules))
     res.coverage = base_coverage(runs, cov, cases_all, nt,
                                  "memo, left-recursion and operator families x all inputs up to the bound, parsed sequentially (twice "
@@ -1635,8 +1724,14 @@ def check_C16(tier, seed, replay):
                     # Compile::directory: the grammar two levels down a directory tree, next to another grammar
                     dd = os.path.join(tdir, "dir.%s.%s" % (g.id, sname))
                     shutil.rmtree(dd, ignore_errors=True)
-                    os.makedirs(os.path.join(dd, "a", "b"))
-                    open(os.path.join(dd, "a", "b", "g.ebnf"), "w").write(text)
+                    # ... the subdirectory is a symbolic link, and so is a second copy of the grammar file
+                    os.makedirs(os.path.join(dd, "a"))
+                    os.makedirs(os.path.join(dd, "real"))
+                    os.symlink(os.path.join(dd, "real"), os.path.join(dd, "a", "b"))
+                    open(os.path.join(dd, "real", "g.ebnf"), "w", newline="").write(text)
+                    os.makedirs(os.path.join(dd, "files"))
+                    open(os.path.join(dd, "files", "orig.ebnf"), "w", newline="").write(text)
+                    os.symlink(os.path.join(dd, "files", "orig.ebnf"), os.path.join(dd, "a", "link.ebnf"))
                     open(os.path.join(dd, "a", "other.ebnf"), "w").write("@export\nOther = 'o';\n")
                     pf2 = prefixes[(proc + 1) % len(prefixes)]
                     jobs.append(("builddir", g.id, sname, proc, [front, "compiledir", dd, dvs, pf2], pf2, text, cenv))
@@ -1664,7 +1759,17 @@ def check_C16(tier, seed, replay):
             framed = ok and rest.startswith("\n") and rest.endswith("\n")
             body = rest[1:-1] if framed else rest
         else:
-            content = open(cmd[4] if route == "buildscript" else os.path.join(cmd[2], "a", "b", "g.rs")).read()
+            outp = cmd[4] if route == "buildscript" else os.path.join(cmd[2], "a", "b", "g.rs")
+            if route == "builddir":
+                missing = [x for x in (outp, os.path.join(cmd[2], "a", "link.rs")) if not os.path.exists(x)]
+                if missing:
+                    res.add(Violation("C16", "Routes", "Compile::directory answers Ok but wrote no code for %s (a grammar reached through a "
+                                      "symbolic link)" % os.path.relpath(missing[0], cmd[2]), None, {"name": gid, "site": "builddir:missing"}))
+                    continue
+                if open(outp).read() != open(os.path.join(cmd[2], "a", "link.rs")).read():
+                    res.add(Violation("C16", "Routes", "Compile::directory wrote different files for the same grammar text reached by two paths",
+                                      None, {"name": gid, "site": "builddir:two-paths"}))
+            content = open(outp).read()
             ok, rest = split_header(content)
             lead = "\n" + pf + "\n"
             framed = ok and rest.startswith(lead)
